@@ -7,7 +7,8 @@ Anything version-related that the translator does not understand makes it FAIL (
 obligation C20_min_everywhere is then not discharged."""
 import ast, sys, os
 
-SRC = "/repo/src/nauyaca"
+import os as _os
+SRC = _os.environ.get("NV_SRC", _os.path.join(_os.environ.get("NV_REPO", "/repo"), "src", "nauyaca"))
 def all_files():
     out = []
     for d, _, fs in os.walk(SRC):
